@@ -282,17 +282,22 @@ def checkedLayer (name : Str) : Decision → Decision
   | .add n => if n = name || validLayerName n then .add n else .error
   | d => d
 
-/-- `_Transfer.add_layer_entry`.  `XrefTables.specialLayerAddedUnchanged` is probed on the real code: `false` = the
-    code as found, where a special layer that is missing in the target goes through the renaming policy -/
-def addLayerEntry (pol : Policy) (xref : Str) (t : Table) (name : Str) : Decision :=
+/-- `_Transfer.add_layer_entry`.  `unchanged = true` is the current code: a special layer that is missing in the
+    target is added under its own name; `false` is the revision before fix 2d5ff22e8, where it went through the
+    renaming policy -/
+def addLayerEntryWith (unchanged : Bool) (pol : Policy) (xref : Str) (t : Table) (name : Str) : Decision :=
   let u := upper name
   if XrefTables.specialLayers.contains u || isAdskSpecial u then
     match t.get? u with
     | some h => .useExisting h
     | none =>
-      if XrefTables.specialLayerAddedUnchanged then .add name
+      if unchanged then .add name
       else checkedLayer name (addTableEntry pol xref t name)
   else checkedLayer name (addTableEntry pol xref t name)
+
+/-- the code under test: the branch is selected by a probe run on the real code at generation time -/
+def addLayerEntry (pol : Policy) (xref : Str) (t : Table) (name : Str) : Decision :=
+  addLayerEntryWith XrefTables.specialLayerAddedUnchanged pol xref t name
 
 /-- `_Transfer.add_linetype_entry` -/
 def addLinetypeEntry (pol : Policy) (xref : Str) (t : Table) (name : Str) : Decision :=
@@ -484,7 +489,11 @@ def transfer (guards discards : Bool) (d : Docs) (σ : Sigma) (regs : List (Nat 
     let σ' := redirect σ repl dead
     .ok (purge (mapPhase d2 σ σ' (repl.map (·.1))) (purgeList dead repl placed), σ')
 
-/-- the defect found in `Layer.map_resources`: the mapped value is written to `self` (the SOURCE entity) -/
+/-- the transfer of the code under test: guard and discard behaviour as probed on the real code at generation time -/
+def transferCurrent (d : Docs) (σ : Sigma) (regs : List (Nat × Reg)) (placed : List Nat := []) : Except Err (Docs × Sigma) :=
+  transfer XrefTables.destroyGuardsNone XrefTables.discardsContentOfKeptBlock d σ regs placed
+
+/-- the defect that was in `Layer.map_resources` (before fix bb0a51d54): the mapped value is written to `self` (the SOURCE entity) -/
 def mapPhaseUnfixedLayer (d : Docs) (σ : Sigma) (s : Nat) : Docs :=
   { d with src := d.src.upd s fun n => { n with ptrs := n.ptrs.map σ.get } }
 
